@@ -67,6 +67,28 @@ CHECKS = {
    note="Slices/maps of non-schema values are shared by contract and never written through.", ref="5 C20"),
 }
 
+# Workload dimensions added after seeded-regression rounds 4 and 5 (DESIGN.md section 12.1).
+COMMON = (" Since rounds 4-5 of the seeded regressions the workload also contains, where the check's inputs allow it: size-stressed inputs "
+          "(containers and keyword collections of 63-257 members, $ref chains up to 129 hops, 15-130 Loader documents, nesting towers up to 2000 levels), "
+          "call history (earlier calls with other options and earlier FAILED calls in the same process), arbitrary textual layout of documents, "
+          "and API-usage patterns (Go-only fields set after decoding, nodes decoded from a decoy and restored in Go, re-used decode targets, DAG-shaped Schema values, caching Loaders).")
+EXTRA = {
+ "C04": " Corpus and reflect-built types include embedded fields encoding/json does not flatten (name tags, '-', non-struct types).",
+ "C05": " Boolean documents are also decoded into re-used targets; bytes returned by direct Schema.MarshalJSON calls are held and re-compared after later calls.",
+ "C06": " Decoy resources declaring the anchor are entered through failing anyOf/not/if/contains branches before the real path; up to 130 unrelated dynamic anchor names.",
+ "C08": " Pointer towers: recursive schemas over 10-2000 nested levels with 0-2 pointers per level.",
+ "C11": " Towers of up to 1001 containers, aliased prefix rows of one backing array, same-type []json.Number with respelled members.",
+ "C12": " Arrays of 13-257 mostly unique items with hash-colliding unequal members; aliased prefix rows in enum/const.",
+ "C13": " Shared Resolved built with ValidateDefaults and object/array defaults; Go-built schemas (absent trailing PropertyOrder names, shared sub-schema objects) in the concurrent Marshal workload.",
+ "C14": " loaderHistory: one caching Loader serving the same *Schema to five roots of different drafts in a seeded order, each outcome compared with the root resolved alone; long uniqueItems arrays with hash colliders.",
+ "C15": " Property names that are other names joined by a separator, with required lists that join to the same text.",
+ "C16": " TypeSchemas tables of up to 15 entries, overrides of every built-in translation, entries keyed by unnamed types, decoy inference calls with other options first.",
+ "C17": " A fifth of the valid locations is served by a Loader (document URI + pointer fragment); a lexical $dynamicRef may sit beside the $ref.",
+ "C18": " Unreferenced $defs/definitions entries whose $id is a near variant (trailing slash, empty segment, query, case) of a referenced resource.",
+ "C19": " One level in ten has 12-257 properties; one sub-schema object may be the value of two properties.",
+ "C20": " A fifth of the inputs are DAGs (one sub-schema object used at two places).",
+}
+
 PENDING = []
 
 def main():
@@ -80,7 +102,7 @@ def main():
             "evidence_file": f"/verif/evidence/{pid}.json",
             "replay_cmd_template": f"./run {pid} --replay {{path}}",
             "engine": "vcheck",
-            "level_claimed": {"category": "exploration", "text": c["text"], "design_ref": "DESIGN.md section " + c["ref"]},
+            "level_claimed": {"category": "exploration", "text": c["text"] + EXTRA.get(pid, "") + COMMON, "design_ref": "DESIGN.md section " + c["ref"] + ", 11, 12"},
             "level_note": c["note"],
             "technique": c["tech"],
         })
